@@ -220,16 +220,21 @@ def rule_R1(text, log):
     return apply_edits(text, edits)
 
 
-def rule_R3(text, log):
+def rule_R3(text, log, copy=()):
     """Reference patterns in match-arm heads / if-let / while-let patterns: drop the `&`.
 
     Only `&` directly followed by a path starting with an upper-case identifier, and
     `ref ` binders, inside the pattern part (up to `=>` or the `=` of a let).
+    Dropping `&` turns by-value (Copy) binders into references; binders named in `copy`
+    are re-bound by value (`let x = *x;`) as first statement of the arm / block, which
+    restores the original binding mode.
     """
     toks = lex(text)
     edits = []
+    copy = set(copy)
 
     def strip_range(a, b):
+        changed = False
         for k in range(a, b):
             t = toks[k]
             if t.text == '&' and k + 1 < b and toks[k + 1].kind == 'ident' and toks[k + 1].text[0].isupper():
@@ -237,12 +242,26 @@ def rule_R3(text, log):
                 if prev in ('{', ',', '|', '(', 'let', '=>', '}', ';') or k == a:
                     edits.append(Edit(t.start, t.end, '', 'R3', ''))
                     log.append(('R3', '&' + toks[k + 1].text, toks[k + 1].text))
+                    changed = True
             if t.kind == 'ident' and t.text == 'ref' and k + 1 < b and toks[k + 1].kind == 'ident':
                 edits.append(Edit(t.start, toks[k + 1].start, '', 'R3', ''))
                 log.append(('R3', 'ref ' + toks[k + 1].text, toks[k + 1].text))
+        names = []
+        if changed and copy:
+            for k in range(a, b):
+                t = toks[k]
+                if t.kind == 'ident' and t.text in copy and t.text not in names and toks[k + 1].text != '(' and toks[k - 1].text != '::':
+                    names.append(t.text)
+        return names
 
-    depth_stack = []
-    # match-arm heads: from the previous arm delimiter at the same depth up to `=>`
+    def rebind(block_open, names):
+        if names:
+            if toks[block_open].text != '{':
+                raise Undecided('R3 copy binders %s need a block body' % names)
+            txt = ' ' + ' '.join('let %s = *%s;' % (n, n) for n in names)
+            edits.append(Edit(toks[block_open].end, toks[block_open].end, txt, 'R3copy', ''))
+            log.append(('R3', 'by-value binders ' + ','.join(names), txt.strip()))
+
     depth = 0
     depths = []
     for t in toks:
@@ -257,27 +276,33 @@ def rule_R3(text, log):
             a = k - 1
             while a >= 0:
                 ta = toks[a]
-                if depths[a] == d and ta.text in (',', '{') and not (ta.text == '{' and False):
+                if depths[a] == d and ta.text in (',', '{'):
                     break
                 if depths[a] == d + 1 and ta.text == '}' and depths[a] - 1 == d:
-                    # closing brace of previous arm's block body
                     break
                 if depths[a] < d:
                     break
                 a -= 1
-            strip_range(a + 1, k)
+            names = strip_range(a + 1, k)
+            rebind(k + 1, names)
         if t.kind == 'ident' and t.text == 'let' and k > 0 and toks[k - 1].text in ('if', 'while'):
             b = k + 1
             while toks[b].text != '=':
                 if toks[b].text in OPEN:
                     b = match_close(toks, b)
                 b += 1
-            strip_range(k + 1, b)
-    # de-duplicate edits
+            names = strip_range(k + 1, b)
+            q = b + 1
+            while toks[q].text != '{':
+                if toks[q].text in ('(', '['):
+                    q = match_close(toks, q)
+                q += 1
+            rebind(q, names)
     seen, uniq = set(), []
     for e in edits:
-        if (e.start, e.end) not in seen:
-            seen.add((e.start, e.end))
+        key = (e.start, e.end, e.text)
+        if key not in seen:
+            seen.add(key)
             uniq.append(e)
     return apply_edits(text, uniq)
 
@@ -481,9 +506,13 @@ def process_extract(header, directives, ctx):
     log = []
     for d in directives:
         if d[0] == 'rule':
-            if d[1] not in RULES:
+            rm = re.match(r'(\w+)(?:\(([^)]*)\))?$', d[1])
+            if not rm or rm.group(1) not in RULES:
                 raise Undecided('unknown rule ' + d[1])
-            text = RULES[d[1]](text, log)
+            if rm.group(2) is not None:
+                text = RULES[rm.group(1)](text, log, [x.strip() for x in rm.group(2).split(',') if x.strip()])
+            else:
+                text = RULES[rm.group(1)](text, log)
         elif d[0] == 'subst':
             old, new, all_ = d[1]
             text, n = tok_replace(text, old, new, all_)
